@@ -64,6 +64,13 @@ def cases(tier):
         if tier == "quick" and (nfff + abs(pid) + len(flav) + len(kind) + len(proc)) % 3 and not (proc == "CC" and nfff == 3 and flav in ("bottom", "total") and pid == 11):
             continue
         out.append(dict(kind="lo_ffn0", process=proc, pid=pid, nf=nfff, flav=flav, sf=kind))
+    # the FONLL building block FONLL-FFN0 (exactly one massive quark, NfFF+1): same limit for that quark
+    for proc, pid, nfff, kind in itertools.product(["EM", "NC", "CC"], PROJ, [3, 4], ["F2", "F3"]):
+        if proc == "EM" and kind == "F3":
+            continue
+        if tier == "quick" and (nfff + abs(pid) + len(kind) + len(proc)) % 2:
+            continue
+        out.append(dict(kind="lo_ffn0", process=proc, pid=pid, nf=nfff, flav={3: "charm", 4: "bottom"}[nfff], sf=kind, scheme="FONLL-FFN0"))
     for pid in PROJ:
         for mode in ("phph", "phZ", "ZZ", "WW"):
             out.append(dict(kind="propagator", pid=pid, mode=mode))
@@ -212,8 +219,9 @@ def pairs_for(case, P, Q2):
     elif kind == "lo_ffn0":
         proc, pid, nfff, flav, sf = case["process"], case["pid"], case["nf"], case["flav"], case["sf"]
         pv = sf in ("F3", "gL", "g4")
-        ks = cm.run_combiner(P, obs=f"{sf}_{flav}", process=proc, pid=pid, Q2=Q2, scheme="FFN0", nf=nfff,
-                             ZMq=tuple(q <= nfff for q in (4, 5, 6)), pto=0)
+        sch = case.get("scheme", "FFN0")
+        ks = cm.run_combiner(P, obs=f"{sf}_{flav}", process=proc, pid=pid, Q2=Q2, scheme=sch, nf=nfff,
+                             ZMq=tuple(q <= nfff for q in (4, 5, 6)) if sch == "FFN0" else tuple(q != nfff + 1 for q in (4, 5, 6)), pto=0)
         tot = _lo_sum(ks)
         tagged = {"light": [None], "charm": [4], "bottom": [5], "top": [6], "total": [None, 4, 5, 6]}[flav]
         tagged = [h for h in tagged if h is None or h > nfff]  # flavours <= NfFF are part of 'light' in this scheme
